@@ -255,3 +255,50 @@ def r4(cx):
 def _site_no(b, bi):
     sites = sorted(x for x, t in b.calls() if t["callee"] == UPDSHARD)
     return sites.index(bi)
+
+
+UPD_ROUTING = "sharding::router::ShardRouter::update_routing"
+
+
+@rule("C13", "R5", "what fences must be what is compared: (a) every loader of the object-store backend returns, as the token, the ETag of the very GET whose body it parsed - not one obtained "
+      "by a second request (HEAD), which can describe a newer version than the body; (b) the router's update_routing only ever replaces an entry (under the >= comparison) and "
+      "never removes one: removing forgets the highest generation seen, and a delayed older document is then cached as fresh")
+def r5(cx):
+    n = 0
+    for fk in cx.prog.fn_keys(r"^metadata::s3::ObjectStoreMetadataClient::load_[a-z_]+_with_etag$"):
+        ck = cx.prog.code_key(fk)
+        b = cx.body(ck)
+        if b is None:
+            continue
+        gets = set(M.find_calls(b, lambda c: c == "object_store::ObjectStore::get"))
+        if not gets:
+            continue
+        n += 1
+        bad = None
+        for (bi, si, cls) in M.exit_defs(b):
+            if cls == "err" or si == M.T:
+                continue
+            rv = b.blocks[bi]["stmts"][si]["rv"]
+            if rv["k"] != "agg" or not rv.get("ops"):
+                continue
+            o = M.operand_origins(b, rv["ops"][0], at=(bi, si))
+            # the Ok payload is a (content, token) tuple: position .1 is the token
+            comb = set(M.PURE_ADAPTERS) | {tt["callee"] for _, tt in b.calls() if tt["callee"].startswith(("std::option::Option::", "std::result::Result::"))}
+            tok = M.provenance(b, {"l": rv["ops"][0]["pl"]["l"], "p": [{"f": 1, "n": "1"}]}, at=(bi, si), adapters=comb) if rv["ops"][0].get("k") in ("move", "copy") else set()
+            foreign = sorted({x[1][1] for x in tok if x[0] == "call" and x[1][0] not in gets and not x[1][1].startswith(("std::", "core::", "alloc::"))})
+            if foreign:
+                bad = (bi, si, foreign)
+        if bad:
+            cx.violation(fk, "token-from-the-parsed-get", "%s: the token %s returns can come from %s, a different request than the GET whose body it parsed: generation (or content) checks are made on one "
+                         "version and the conditional PUT is fenced on another, so an update based on an outdated document is accepted" % (b.sp(bad[0], bad[1]), fk.rsplit("::", 1)[1], bad[2]), [b.sp(bad[0], bad[1])])
+        else:
+            cx.passed(fk, "token-from-the-parsed-get", [b.sp(sorted(gets)[0])])
+    cx.floor("object-store loaders that return a token", n, 5)
+    ck, b = cx.need_body(UPD_ROUTING)
+    if b is not None:
+        rem = [bi for bi, t in b.calls() if re.search(r"(OccupiedEntry<.*>|OccupiedEntry::<.*>|DashMap::<K, V, S>)::(remove|remove_entry|remove_if|clear|retain)$", t["callee"])]
+        if rem:
+            cx.violation(ck, "router-never-forgets-a-generation", "%s: update_routing removes a cached entry: the highest generation seen for that shard is forgotten, and a delayed document of a "
+                         "lower generation (e.g. the still-Active version of a shard already retired) is then accepted as fresh" % b.sp(rem[0]), [b.sp(rem[0])])
+        else:
+            cx.passed(ck, "router-never-forgets-a-generation", [b.j["span"]])
